@@ -361,6 +361,9 @@ def jobs(tier):
     out.append(Spellings("dict2", streams=1, tests=1))
     out.append(Spellings("mixed", streams=2, tests=5))
     out.append(Spellings("scalars", streams=2, tests=2, contexts=2, window=True))
+    # two contexts that share their (absent) window and region but configure different things: both sets of calls are due
+    out.append(Spellings("scalars", streams=2, tests=2, contexts=2))
+    out.append(Spellings("lists", streams=1, tests=3, contexts=2, region=True))
     out.append(Spellings("lists", streams=1, tests=2, contexts=1, window=True, region=True))
     out.append(Spellings("scalars", streams=1, tests=2, contexts=1, region=True))
     out.append(Spellings("scalars", streams=2, tests=3, unknown=True))
